@@ -421,6 +421,24 @@ def rule_r5(ctx) -> List[R.Inst]:
                        f"'{unparse(degrade[0])}' builds the appended row by transposing a Series: all its columns are object-typed, so after "
                        f"the concat every column of the list is object-typed (a list extended by an item is no longer numeric: np.isnan on "
                        f"its lengths raises, e.g. in hitsound_copy)", construct=f"append: {unparse(degrade[0].value)} without infer_objects()")]
+    # every exit of the function hands back the concatenated list: a path that returns something else (a short cut for an empty
+    # receiver or an empty value) must still honour the sort flag — otherwise it is a path on which `sort=True` is ignored
+    derived = {n.targets[0].id for n in walk_no_nested(fn.node) if isinstance(n, ast.Assign) and isinstance(n.targets[0], ast.Name)
+               and any(x is c for x in ast.walk(n.value))}
+    for _ in range(3):
+        derived |= {n.targets[0].id for n in walk_no_nested(fn.node) if isinstance(n, ast.Assign) and isinstance(n.targets[0], ast.Name)
+                    and any(isinstance(x, ast.Name) and x.id in derived for x in ast.walk(n.value))}
+    for r in returns_of(fn.node):
+        if r.value is None or any(x is c for x in ast.walk(r.value)) or any(isinstance(x, ast.Name) and x.id in derived for x in ast.walk(r.value)):
+            continue
+        honours = any(isinstance(x, ast.IfExp) and unparse(x.test) == "sort" and "sorted" in unparse(x.body) for x in ast.walk(r.value))
+        if order_ok and ign_ok and sort_ok:
+            if honours:
+                return [R.undec("C16.R5", "append", file, r.lineno, f"a second exit 'return {unparse(r.value)[:70]}' builds the result without the concat: "
+                                                                    f"whether it holds the same rows is not decided")]
+            return [R.viol("C16.R5", "append", file, r.lineno,
+                           f"the exit 'return {unparse(r.value)[:70]}' hands back a list that did not pass 'sorted() if sort': on this path "
+                           f"append(.., sort=True) returns the rows unsorted", construct=f"append: early return {unparse(r.value)[:90]}")]
     if order_ok and ign_ok and sort_ok:
         return [R.ok("C16.R5", "append", file, c.lineno, idiom="concat([self.df, val], ignore_index=True); sorted iff sort")]
     why = []
